@@ -2,7 +2,7 @@
 """C06 — outbound SMTP DATA cannot be terminated or hijacked by message content."""
 import os, sys
 sys.path.insert(0, os.path.join(os.path.dirname(os.path.abspath(__file__)), "..", "tools"))
-from nqlib import run_standard
+from nqlib import run_standard, VERIF
 
 RULE = ("every byte string over {CR,LF,'.','a'} up to length %s (exhaustive; read chunkings full/1/2/3, short writes, and for the shorter ones "
         "tiny substdio buffers, a failing read() at every position and a failing write()) plus seeded random messages up to 64 KiB (7 of 8 ending in a line end, "
@@ -16,10 +16,20 @@ RULE = ("every byte string over {CR,LF,'.','a'} up to length %s (exhaustive; rea
         "flushed+buffered bytes are a prefix of the encoder output, no bare LF, no lone-dot line; every non-failing split gives the same wire; "
         "non-trivial = distinct input containing a CR or a dot at a line start")
 
+def builder(s):
+    """qmail-remote as a program object of its own (its writable data in sections the harness restores before every case:
+    every case starts from the program's own static initialisers - ssin, smtpto, inbuf, smtptobuf, any static);
+    read / write / _exit interposed at link level, timeoutwrite.o replaced by the harness's scripted socket"""
+    obj, extra = s.prog_object("qr", "qmail-remote.c", "qmail-remote", keep_globals=["blast", "ssin", "smtpto", "smtpfd"],
+                               objs_exclude=["timeoutwrite.o"])
+    return s.cc(os.path.join(VERIF, "harness/c06_blast.c"), os.path.join(s.dir, "h_c06"),
+                extra="%s %s -Wl,--wrap=read -Wl,--wrap=write -Wl,--wrap=_exit" % (obj, extra))
+
+
 run_standard("C06", "Nq.Props.C06", "drv_c06", "harness/c06_blast.c", "qmail-remote", ["timeoutwrite.o"],
              "9 4000", "12 60000", {"quick": RULE % (9, 5), "thorough": RULE % (12, 8)},
              "rblast (Nq/SmtpOut.lean) and oblast over Nq.Substdio (Nq/SmtpIO.lean) vs qmail-remote.c blast() over substdi.c/substdo.c/safewrite",
-             alphabet=b"\r\n.a", stdin_prefixes=("0", "1", "2", "3", "1023/1", "1024/1023"),
+             builder=builder, alphabet=b"\r\n.a", stdin_prefixes=("0", "1", "2", "3", "1023/1", "1024/1023"),
              assumptions=["the value-level substdio model (Nq/Substdio.lean: buffers are byte lists, not the arrays) is tied to substdi.c/substdo.c by running "
                           "the real substdio under the read/write plans and comparing wire, buffered bytes and write() counts (and by C20's harness); "
                           "read() returns 0 only at the end of the file; write() returns >= 1 or fails (safewrite treats 0 as failure)",
